@@ -11,6 +11,7 @@ CONSTANTS A2, L2,      \* alphabet / maximal length for binary and ternary opera
           AC, LC,      \* alphabet / maximal length for the case-insensitive operations
           AN, LN,      \* alphabet / maximal length for AtoI / AtoU
           PMax,        \* positions and lengths 0..PMax
+          HG,          \* symbolic sizes beyond every string (a subset of HugeNames) used as positions / lengths / counts
           BitPos       \* bit positions for the masked-bit formatter
 
 S2 == SeqsUpTo(A2, L2)
@@ -22,7 +23,13 @@ Chars2 == A2 \cup {120}                     \* a byte that never occurs in the s
 Blocks == SeqsUpTo({0, 1, 255}, 2) \cup {<<171, 0, 1>>, <<0, 0, 0>>}
 LongBlocks == { Rep(<<171>>, n) : n \in {127, 128, 129} }
 
-Row(fn, s1, s2, s3, n1, n2, n3) == [op |-> "f", fn |-> fn, s1 |-> s1, s2 |-> s2, s3 |-> s3, n1 |-> n1, n2 |-> n2, n3 |-> n3]
+ASSUME HG \subseteq HugeNames
+NoHg == <<"", "", "">>
+Row(fn, s1, s2, s3, n1, n2, n3) == [op |-> "f", fn |-> fn, s1 |-> s1, s2 |-> s2, s3 |-> s3, n1 |-> n1, n2 |-> n2, n3 |-> n3, hg |-> NoHg]
+\* a call whose k-th number is the symbolic size hk (hk = "": the number nk)
+RowH(fn, s1, s2, s3, n1, n2, n3, h1, h2, h3) ==
+    [op |-> "f", fn |-> fn, s1 |-> s1, s2 |-> s2, s3 |-> s3, n1 |-> IF h1 = "" THEN n1 ELSE 0, n2 |-> IF h2 = "" THEN n2 ELSE 0,
+     n3 |-> IF h3 = "" THEN n3 ELSE 0, hg |-> <<h1, h2, h3>>]
 R1(fn, s1) == Row(fn, s1, <<>>, <<>>, 0, 0, 0)
 R2(fn, s1, s2) == Row(fn, s1, s2, <<>>, 0, 0, 0)
 RN(fn, n1) == Row(fn, <<>>, <<>>, <<>>, n1, 0, 0)
@@ -52,6 +59,18 @@ Family(f) ==
                       { Row("replacech", a, <<>>, <<>>, c1, c2, 0) : a \in S2, c1 \in Chars2, c2 \in Chars2 } \cup
                       { Row("strncpy", a, <<>>, <<>>, n, 0, 0) : a \in S2, n \in P } \cup
                       { Row("pad", a, b, <<>>, 32, 0, 0) : a \in S2, b \in S2 }
+      \* positions, lengths and counts beyond every string (size_t values near SIZE_MAX, 2^63, 2^32, 2^31): every operation
+      \* for which such an argument is a legal call (HugeSlots), combined with the small positions
+      [] f = "huge" -> { RowH("substr1", a, <<>>, <<>>, 0, 0, 0, h, "", "") : a \in S2, h \in HG } \cup
+                       { RowH("substr2", a, <<>>, <<>>, b, 0, 0, "", h, "") : a \in S2, b \in P, h \in HG } \cup
+                       { RowH("substr2", a, <<>>, <<>>, 0, n, 0, h, "", "") : a \in S2, n \in P, h \in HG } \cup
+                       { RowH("substr2", a, <<>>, <<>>, 0, 0, 0, h, g, "") : a \in S2, h \in HG, g \in HG } \cup
+                       { RowH("findfrom", a, <<>>, <<>>, 0, ch, 0, h, "", "") : a \in S2, ch \in Chars2, h \in HG } \cup
+                       { RowH("strncmp", a, b, <<>>, 0, 0, 0, h, "", "") : a \in S2, b \in S2, h \in HG } \cup
+                       { RowH("copytobuf", a, <<>>, <<>>, 0, nul, 0, h, "", "") : a \in S2, nul \in {0, 1}, h \in HG } \cup
+                       { RowH("repeat", <<>>, <<>>, <<>>, 0, 0, 0, h, "", "") : h \in HG } \cup
+                       { RowH("maskedbits", SortedSeq(V), SortedSeq(M), <<>>, 0, 0, 0, "", "", h) :
+                           V \in {{}, {0, 63}}, M \in {{}, {0, 7, 63}, 0..63}, h \in HG }
       [] f = "num" -> { R1(fn, a) : fn \in {"atoi", "atou"}, a \in SN } \cup
                       { R1(fn, a) : fn \in {"atoi", "atou"}, a \in {<<50, 49, 52, 55, 52, 56, 51, 54, 52>>, <<32, 45, 57, 57, 57, 57, 57, 57, 57, 57, 57>>} } \cup
                       { RN("dec", n) : n \in Ints \cup { 0 - k : k \in Ints } } \cup
@@ -68,6 +87,6 @@ Family(f) ==
       [] f = "fmt" -> { R1("format", Rep(<<97>>, n)) : n \in {0, 1, 98, 99, 100, 101, 102, 250} } \cup
                       { R2("format2", Rep(<<97>>, n), Rep(<<98>>, m)) : n \in {0, 49, 50, 99, 100}, m \in {0, 49, 50, 51, 100} } \cup
                       { R2(fn, Rep(<<97>>, n), <<98>>) : fn \in {"plus", "append", "appendc"}, n \in {99, 100, 300} }
-Families == {"bin", "tri", "case", "un", "pos", "num", "blk", "bits", "fmt"}
+Families == {"bin", "tri", "case", "un", "pos", "huge", "num", "blk", "bits", "fmt"}
 RowsOf(f) == IF f = "all" THEN UNION { Family(g) : g \in Families } ELSE Family(f)
 =============================================================================
